@@ -104,11 +104,11 @@ type halfPipe struct {
 	stall         *stallState
 	readerWaiting bool // the reading party waits for data (guarded by mu)
 	mu            sync.Mutex
-	cond   *sync.Cond
-	msgs   [][]byte
-	cur    []byte
-	closed bool
-	frag   int // >0: Read returns at most frag bytes and crosses message boundaries
+	cond          *sync.Cond
+	msgs          [][]byte
+	cur           []byte
+	closed        bool
+	frag          int // >0: Read returns at most frag bytes and crosses message boundaries
 	// mitm is applied to every written message (index = ordinal) and returns
 	// the messages to deliver instead.
 	mitm    func(idx int, msg []byte) [][]byte
@@ -207,14 +207,14 @@ func newDuplexPair() (ini, res *duplex, i2r, r2i *halfPipe) {
 // ---------- handshake configuration ----------
 
 type hsConfig struct {
-	Pattern  string `json:"pattern"` // XX | KK
-	IMin     int    `json:"imin"`
-	IMax     int    `json:"imax"`
-	RMin     int    `json:"rmin"`
-	RMax     int    `json:"rmax"`
-	Seed     uint64 `json:"seed"`
-	AuthLen  int    `json:"auth_len"`
-	NilAuth  bool   `json:"nil_auth,omitempty"`
+	Pattern string `json:"pattern"` // XX | KK
+	IMin    int    `json:"imin"`
+	IMax    int    `json:"imax"`
+	RMin    int    `json:"rmin"`
+	RMax    int    `json:"rmax"`
+	Seed    uint64 `json:"seed"`
+	AuthLen int    `json:"auth_len"`
+	NilAuth bool   `json:"nil_auth,omitempty"`
 	// secrets: passphrase of the responder differs from the initiator's?
 	PassMode string `json:"pass_mode,omitempty"` // same | bit | random | short
 	PassBit  int    `json:"pass_bit,omitempty"`
@@ -224,13 +224,13 @@ type hsConfig struct {
 }
 
 type party struct {
-	cd         *mailbox.ConnData
-	m          *mailbox.Machine
-	static     keychain.SingleKeyECDH
-	err        error
-	gotRemote  []*btcec.PublicKey
-	gotAuth    [][]byte
-	ctorErr    error
+	cd        *mailbox.ConnData
+	m         *mailbox.Machine
+	static    keychain.SingleKeyECDH
+	err       error
+	gotRemote []*btcec.PublicKey
+	gotAuth   [][]byte
+	ctorErr   error
 }
 
 type hsPair struct {
